@@ -23,6 +23,14 @@ def plan(env, tier, seed):
     tasks = cl.split_tasks(env, lambda ty, e: True)
     for t in tasks:
         t.update({"nrand": 20 if tier == "quick" else 200, "seed": seed, "names_bin": env[t["backend"]]["bins"]["x_names"]})
+    if tier == "thorough":
+        import genuniverse
+        gu = genuniverse.build(seed, "C09", 24)
+        for b, e in gu.items():
+            for ty, ent in e["reg"].items():
+                if ty.startswith("_") or ty == "AmountT":
+                    continue
+                tasks.append({"backend": b, "ty": ty, "entry": ent, "bin": e["bin"], "nrand": 60, "seed": seed, "decl": e["decl"][ty]})
     # one extra task per backend for the constants
     for b, e in env.items():
         tasks.append({"backend": b, "ty": "_constants", "entry": None, "bin": e["bins"]["x_names"], "reg": e["reg"], "seed": seed})
